@@ -321,19 +321,22 @@ Definition elem_env (x : val) : env :=
   {| e_var := VNil; e_int := 0; e_str := []; e_ifc := VNil; e_elem := x; e_stack := [] |}.
 
 (* MarshalLogArray / MarshalLogObject of a zap-internal wrapper type, on the no-error path
-   (the recording encoder never fails) *)
-Definition run_loop (addto : field -> option (list call)) (l : loop) (xs : list val) : option (list call) :=
+   (the recording encoder never fails): what one element of the loop does, then the loop *)
+Definition loop1 (addto : field -> option (list call)) (l : loop) (x : val) : option (list call) :=
   match l with
   | LAppend m e | LAppendErr m e =>
-      omap (fun x => match eval (elem_env x) e with Some v => Some (m, [], v) | None => None end) xs
+      match eval (elem_env x) e with Some v => Some [(m, [], v)] | None => None end
   | LErrs k =>
-      oconcat (fun x => match x with
-                        | VNil => Some []
-                        | VOpq o => Some [(($"AppendObject"), [], VCalls [(($"AddString"), bs k, VStr (oerr o))])]
-                        | _ => None end) xs
+      match x with
+      | VNil => Some []
+      | VOpq o => Some [(($"AppendObject"), [], VCalls [(($"AddString"), bs k, VStr (oerr o))])]
+      | _ => None
+      end
   | LFields =>
-      oconcat (fun x => match field_of_val x with Some f => addto f | None => None end) xs
+      match field_of_val x with Some f => addto f | None => None end
   end.
+Definition run_loop (addto : field -> option (list call)) (l : loop) (xs : list val) : option (list call) :=
+  oconcat (loop1 addto l) xs.
 
 Definition slice_elems (v : val) : option (list val) :=
   match v with VSlice _ l => Some l | _ => None end.
